@@ -310,18 +310,26 @@ def run_cuts(case):
 
 
 # ------------------------------------------------------------------------ matrix-level polyploid instances
-def gen_matrix_instance(rng, k=None, nvars=None, nreads=None, deep=False):
+def gen_matrix_instance(rng, k=None, nvars=None, nreads=None, deep=False, adjacent_split=False):
     """A single-sample instance at the level of phase_single_individual: variant positions, true haplotypes (with
     collapsed regions), VCF genotypes (truth, sometimes with a wrong dosage or a wrong allele), and reads as lists
     of (position, allele) with uneven haplotype coverage, cold regions and allele errors."""
     k = k or rng.choice([2, 3, 3, 4, 4, 5, 6])
     nvars = nvars or rng.randint(2, 14)
+    if adjacent_split:
+        nvars = max(nvars, 4)
     nreads = nreads or rng.randint(3, 12) * k
+    # adjacent_split: two variants on directly neighbouring positions p, p+1 (indices junction-1, junction) and no
+    # read that covers both sides of the junction: the solver must start a new block exactly between them
+    junction = rng.randint(2, nvars - 2) if adjacent_split else None
     positions = []
     p = rng.randint(5, 50)
-    for _ in range(nvars):
+    for i in range(nvars):
         positions.append(p)
-        p += 1 if rng.random() < 0.15 else rng.randint(2, 60)      # adjacent positions occur
+        if junction is not None and i + 1 == junction:
+            p += 1
+        else:
+            p += 1 if rng.random() < 0.15 else rng.randint(2, 60)  # adjacent positions occur
     nall = [rng.choice([2, 2, 2, 3, 4]) for _ in range(nvars)]
     cols = []
     for i in range(nvars):
@@ -357,6 +365,9 @@ def gen_matrix_instance(rng, k=None, nvars=None, nreads=None, deep=False):
     if nvars > 4 and rng.random() < 0.4:
         a = rng.randrange(1, nvars - 1)
         cold = (a, a + 1)                                          # reads rarely span this junction
+    if junction is not None:
+        cold = (junction - 1, junction)
+        err = 0.0
     reads = []
     tries = 0
     while len(reads) < nreads and tries < 20 * nreads:
@@ -364,7 +375,7 @@ def gen_matrix_instance(rng, k=None, nvars=None, nreads=None, deep=False):
         h = rng.choices(range(k), weights=weights)[0]
         a = rng.randrange(nvars)
         b = min(nvars, a + rng.randint(2, max(2, min(nvars, 6))))
-        if cold and a < cold[1] <= b - 1 and rng.random() < 0.9:
+        if cold and a < cold[1] <= b - 1 and (junction is not None or rng.random() < 0.9):
             continue
         idx = [q for q in range(a, b) if rng.random() < 0.92]
         if len(idx) < 2:
@@ -376,6 +387,10 @@ def gen_matrix_instance(rng, k=None, nvars=None, nreads=None, deep=False):
                 al = rng.randrange(max(2, nall[q]))
             rd.append((positions[q], al))
         reads.append(rd)
+    if junction is not None:
+        for h in range(k):                                         # both neighbours are covered on their side
+            reads.append([(positions[junction - 2], cols[junction - 2][h]), (positions[junction - 1], cols[junction - 1][h])])
+            reads.append([(positions[junction], cols[junction][h]), (positions[junction + 1], cols[junction + 1][h])])
     if deep:
         # one deep pile-up: many copies of reads covering a site whose VCF genotype misses the alleles they show
         q = rng.randrange(nvars - 1)
@@ -386,7 +401,7 @@ def gen_matrix_instance(rng, k=None, nvars=None, nreads=None, deep=False):
             reads.append([(positions[q], cols[q][h]), (positions[q + 1], cols[q + 1][h])])
     nalt = [max([nall[i] - 1, 1] + list(genos[i])) for i in range(nvars)]      # ALT alleles the VCF record must list
     return dict(k=k, positions=positions, cols=cols, genos=genos, reads=reads, nalt=nalt,
-                sens=rng.randrange(6), prephase=None)
+                sens=rng.randint(1, 5) if junction is not None else rng.randrange(6), prephase=None, junction=junction)
 
 
 def add_prephasing(rng, inst):
@@ -586,7 +601,12 @@ def run_individual(inst, stub=None):
     return tr.ev, dict(comps), sr, acc, superreads
 
 
-def gen_stub_result(rng, inst):
+def adjacent_pairs(acc):
+    """indices i with acc[i] + 1 == acc[i+1]"""
+    return [i for i in range(len(acc) - 1) if acc[i] + 1 == acc[i + 1]]
+
+
+def gen_stub_result(rng, inst, plant_adjacent_cut=False):
     """generated solver output for the instance's accessible positions: columns (conforming, some with -1) and a
     sorted breakpoint list starting with (0, all, 0.0)"""
     k = inst["k"]
@@ -600,11 +620,22 @@ def gen_stub_result(rng, inst):
         if rng.random() < 0.15:
             col[rng.randrange(k)] = -1
         cols.append(col)
-    rows = [[cols[p][h] for p in range(n)] for h in range(k)]
     pos = sorted(rng.randrange(n) for _ in range(rng.randint(0, 6)))
+    sure = set()
+    if plant_adjacent_cut:
+        # a certain cut (confidence 0.0) exactly between two variants on neighbouring positions, both of them phased
+        for i in adjacent_pairs(acc):
+            if rng.random() < 0.8:
+                sure.add(i + 1)
+                for q in (i, i + 1):
+                    col = list(gmap[acc[q]])
+                    rng.shuffle(col)
+                    cols[q] = col
+        pos = sorted(set(pos) | sure)
+    rows = [[cols[p][h] for p in range(n)] for h in range(k)]
     bps = [(0, list(range(k)), 0.0)]
     for p in pos:
-        conf = 0.0 if rng.random() < 0.35 else rng.choice([1.0, 0.99, 0.8, 0.5, 0.45, 0.1, 1e-6])
+        conf = 0.0 if (p in sure or rng.random() < 0.35) else rng.choice([1.0, 0.99, 0.8, 0.5, 0.45, 0.1, 1e-6])
         bps.append((p, sorted(rng.sample(range(k), rng.randint(2, k))), conf))
     return rows, bps
 
